@@ -289,11 +289,7 @@ def ts_node(k, n, K, refstyle="taskref"):
         return Alias(K[k], K[n["args"][0]["k"]])
     a = n["args"][0]
     if arg_refs(a):
-        # a "data" node whose value mentions keys is a container task
-        from dask._task_spec import Task as _T
-        from dask._task_spec import _identity_cast
-        inner = ts_arg(a, K, refstyle)
-        return _T(K[k], _identity_cast, *inner.args, typ=list)
+        raise ValueError("a data node holds a literal; build nodes that mention keys as tasks")
     return DataNode(K[k], legacy_arg(a, K))
 
 
@@ -437,9 +433,15 @@ def legacy_expr(x):
 
 def ts_expr(x, key=None, rng=None, top=False):
     """Expression of TaskSpec.tla -> task object (Task / Alias / DataNode / containers / plain literal).
-    rng picks among equivalent spellings (TaskRef vs Alias, Dict constructor forms, DataNode-wrapped literals)."""
+    rng picks among equivalent spellings (TaskRef vs Alias, Dict constructor forms, DataNode-wrapped literals):
+    a random.Random picks per occurrence, an int picks one spelling uniformly for the whole node."""
     from dask._task_spec import Alias, DataNode, Dict, List, Set, Task, TaskRef, Tuple
-    pick = (lambda seq: rng.choice(seq)) if rng is not None else (lambda seq: seq[0])
+    if rng is None:
+        pick = lambda seq: seq[0]
+    elif isinstance(rng, int):
+        pick = lambda seq: seq[rng % len(seq)]
+    else:
+        pick = lambda seq: rng.choice(seq)
     e = x["e"]
     if e == "ref":
         k = to_py(x["k"])
